@@ -10,6 +10,7 @@
 #include "types.h"
 #include "utils.h"
 #include "value.h"
+#include "verif_hook.h"
 
 #include <algorithm>
 #include <chrono>
@@ -172,14 +173,18 @@ Search::Search(const Position& position, const Limits& limits,
 
 void Search::stop()
 {
+    VERIF_POINT("stop_call", 0, 0);
     stop_search = true;
 }
 
 void Search::go()
 {
+    VERIF_POINT("go_entry", 0, 0);
     init_search();
+    VERIF_POINT("after_init", 0, 0);
     stop_search = false;
     _start_time = std::chrono::steady_clock::now();
+    VERIF_POINT("after_reset", 0, 0);
 
     // check if there is only one move to make
     if (_root_moves.size() == 1)
@@ -189,6 +194,7 @@ void Search::go()
     iter_search();
 
     ASSERT(_best_move != NO_MOVE);
+    VERIF_POINT("before_best", _best_move, _current_depth);
     sync_cout << "bestmove " << _position.uci(_best_move) << sync_endl;
 }
 
@@ -260,6 +266,7 @@ void Search::iter_search()
     while (!stop_search)
     {
         _current_depth++;
+        VERIF_POINT("iter_start", _current_depth, _search_depth);
 
         _stats = SearchStats{};
 
@@ -302,6 +309,7 @@ void Search::iter_search()
         }
 
         previous_score = result;
+        VERIF_POINT("iter_end", _current_depth, stop_search);
 
         end_time = std::chrono::steady_clock::now();
         elapsed = std::chrono::duration_cast<std::chrono::milliseconds>(
@@ -336,6 +344,7 @@ Value Search::search(Position& position, Depth depth, Value alpha, Value beta,
     const bool ROOT_NODE = info->_ply == 0;
     const bool PV_NODE = beta != alpha + 1;
     const bool IS_NULL = (info - 1)->_current_move == NO_MOVE;
+    VERIF_POINT("node", info->_ply, depth);
 
     LOG_DEBUG("[%d] ENTER SEARCH depth=%d alpha=%ld beta=%ld pvNode=%d fen=%s",
               info->_ply, depth, alpha, beta, static_cast<int>(PV_NODE), position.fen().c_str());
@@ -653,6 +662,7 @@ Value Search::quiescence_search(Position& position, Depth depth, Value alpha,
     clear_pv_list(info);
 
     const bool PV_NODE = beta != alpha + 1;
+    VERIF_POINT("qnode", info->_ply, depth);
 
     LOG_DEBUG("[%d] ENTER QUIESCENCE_SEARCH depth=%d alpha=%ld beta=%ld isPV=%d fen=%s",
               info->_ply, depth, alpha, beta, static_cast<int>(PV_NODE), position.fen().c_str());
@@ -759,6 +769,7 @@ bool Search::check_limits()
     if (check_limits_counter > 0) return false;
 
     check_limits_counter = 40960;
+    VERIF_POINT("limits", _stats.nodes_searched, _search_time);
 
     if (_stats.nodes_searched >= _max_nodes_searched)
     {
